@@ -16,9 +16,9 @@ META = {
         "technique": "Lean 4 proof (induction on depth / key) + translator-regenerated constants + correspondence",
     },
     "C01": {
-        "text": "Theorems for every geometry (m ≥ 1), every hash list/strategy and every history length: a hash list added to a Bloom filter checks true immediately and after any later add, union (either side, any estimator), and query; only clear forgets (C01_bloom, C01_bloom_keys); the expanding filter reports every hash list ever added after any sequence of add(force)/push (C01_expanding). On-disk: C11_added_present/C11_present_mono/C11_history. Tie: bloom, expanding and on-disk suites (bits after every step, all strategies incl. md5/sha256/custom, str and bytes keys, m % 8 ≠ 0).",
+        "text": "Theorems for every geometry (m ≥ 1), every hash list/strategy and every history length: a hash list added to a Bloom filter checks true immediately and after any later add, union (either side, any estimator), and query; only clear forgets (C01_bloom, C01_bloom_keys); the expanding filter reports every hash list ever added after any sequence of add(force)/push (C01_expanding). On-disk: C11_added_present/C11_present_mono/C11_history. Second module C01_history.lean: export+load (bytes and hex) and close+reopen are steps of the SAME history — they never fail on reachable states and are invisible (the run equals the run with the reloads erased), so every hash list added since the last clear is reported after any sequence of add/union/query/clear/reload (C01_bloom_full_history, _keys), add(force)/push/reload (C01_expanding_full_history), add/close+reopen from a created file (C01_ondisk_full_history). Tie: bloom, expanding and on-disk suites (bits after every step, all strategies incl. md5/sha256/custom, str and bytes keys, m % 8 ≠ 0).",
         "design_ref": "§4 C01",
-        "note": TIE + " Export/load and reopen steps are carried by the C05/C11 theorems plus the tie.",
+        "note": TIE + " Reload steps need count < 2^64 and, for union inside a reloading history, an estimator with values in [0, 2^64) and operand bytes < 256 (hex channel) — explicit hypotheses (BInv, UnionsOK).",
         "technique": "Lean 4 proof (bit lemmas, induction over operation sequences) + correspondence",
     },
     "C02": {
@@ -120,7 +120,7 @@ META = {
     "C04": {
         "text": "UNCONDITIONAL exact-set theorem (C04_exact_set): for every quotient size 3..31, auto-expand on/off and every history of add / remove / resize (manual or automatic) / merge on 32-bit hashes in which no call raised, the complete table equals `layout q S` — the canonical table, given by an independent executable specification incl. wrap-around, of the set S of hashes added and not removed since — check is exact membership, get_hashes is S without duplicates, elements_added = |S|. Built from: Layer A (look-up and iteration on layout q S are exact and terminate, all table sizes: C04_contained, C04_hashes), Layer B (add and remove map layout S to layout (S ∪ {h}) / layout (S ∖ {h}), all table sizes — the metadata repair pass provably restores canonical form: C04_B1_add, C04_B2_remove) and the induction over histories (C04_partial). remove never raises or diverges (C04_remove_total); add without auto-resize is refused exactly for a new hash into a table holding size−1 hashes (C04_add_outcome). Tie: the qf suite compares the COMPLETE real state (three metadata arrays, remainders, count, hashes) with the mirrored model AND with layout(set) computed by the specification after EVERY operation (real = mirror = layout), q ∈ {3,4,5,8}, long runs, wrap-around, several automatic resizes, merges; a step budget observes non-termination.",
         "design_ref": "§4 C04",
-        "note": TIE + " Not proved: that the recursion budget the model gives add_alt/resize/merge always suffices (the theorem is for histories in which no call raised or reported divergence, any budget); termination of remove, look-up, iteration and non-resizing add is proved. Hashes < 2^32; the three Bitarrays are modelled as List Bool (C20 is that refinement).",
+        "note": TIE + " Termination is proved for every call: look-up, iteration, remove, non-resizing add (C04.lean) and — second module C04_termination.lean — add_alt/resize/merge with the budget the driver gives them never run out (C04_step_terminates, C04_history_terminates: every history ends in the canonical table of its set or in QuotientFilterError, without any 'no call raised' hypothesis; explicit attained bounds |H|+3, 2|H|+3, |H|+2|hs|+2). Hashes < 2^32; the three Bitarrays are modelled as List Bool (C20 is that refinement).",
         "technique": "Lean 4 refinement proof to a canonical-layout specification (read paths, write paths, induction over histories) + correspondence of the complete state against the layout specification",
     },
 }
